@@ -857,6 +857,20 @@ func (in *Interp) chanSend(c *Chan, v Value) {
 	if limit == 0 {
 		limit = 1 // rendezvous modelled as a one-slot queue under the sequential schedule
 	}
+	if in.sched != nil {
+		in.sched.block(func() bool { return c.closed || len(c.buf) < limit }, "channel send")
+		if c.closed {
+			in.goPanic("send on closed channel")
+		}
+		c.buf = append(c.buf, copyVal(v))
+		if c.cap == 0 {
+			// rendezvous: the sender goes on once a receiver has taken the value
+			c.sent++
+			my := c.sent
+			in.sched.block(func() bool { return c.recvd >= my }, "channel send (rendezvous)")
+		}
+		return
+	}
 	if len(c.buf) >= limit {
 		if in.runPending() && len(c.buf) < limit {
 			c.buf = append(c.buf, copyVal(v))
@@ -871,12 +885,15 @@ func (in *Interp) chanRecv(c *Chan) (Value, bool) {
 	if c == nil {
 		panic(pathAbort{"blocked", "receive from nil channel blocks forever"})
 	}
-	if len(c.buf) == 0 && !c.closed {
+	if in.sched != nil {
+		in.sched.block(func() bool { return c.closed || len(c.buf) > 0 }, "channel receive")
+	} else if len(c.buf) == 0 && !c.closed {
 		in.runPending()
 	}
 	if len(c.buf) > 0 {
 		v := c.buf[0]
 		c.buf = c.buf[1:]
+		c.recvd++
 		return v, true
 	}
 	if c.closed {
@@ -894,6 +911,10 @@ type pendingGo struct {
 // spawning code blocks or when the entry function returns. One deterministic schedule;
 // no claim about interleavings is derived from it.
 func (in *Interp) goStmt(fr *frame, fn Value, args []Value) {
+	if in.sched != nil {
+		in.sched.spawn(fn, args)
+		return
+	}
 	in.ex.pending = append(in.ex.pending, pendingGo{fn, args})
 }
 
@@ -914,6 +935,25 @@ func (in *Interp) runPending() bool {
 func (in *Interp) selectOp(fr *frame, instr *ssa.Select) Value {
 	tb := in.tb
 	ready := -1
+	if in.sched != nil && instr.Blocking {
+		anyReady := func() bool {
+			for _, st := range instr.States {
+				c, _ := fr.get(st.Chan).(*Chan)
+				if c == nil {
+					continue
+				}
+				if st.Dir == types.RecvOnly {
+					if len(c.buf) > 0 || c.closed {
+						return true
+					}
+				} else if c.closed || len(c.buf) < max(c.cap, 1) {
+					return true
+				}
+			}
+			return false
+		}
+		in.sched.block(anyReady, "select")
+	}
 	for pass := 0; pass < 2 && ready < 0; pass++ {
 		for i, st := range instr.States {
 			c, _ := fr.get(st.Chan).(*Chan)
@@ -937,7 +977,7 @@ func (in *Interp) selectOp(fr *frame, instr *ssa.Select) Value {
 			}
 		}
 		if ready < 0 && pass == 0 {
-			if !in.runPending() {
+			if in.sched != nil || !in.runPending() {
 				break
 			}
 		}
